@@ -930,6 +930,10 @@ func (e *Env) addSide(f string, pattern string) {
 		if len(bs) > 0 {
 			if pattern != "" && !strings.Contains(pattern, "(ite ") && !strings.Contains(pattern, "(and ") {
 				f = fmt.Sprintf("(forall (%s) (! %s :pattern (%s)))", strings.Join(bs, " "), f, pattern)
+			} else if ap := autoPattern(f, bs); ap != "" {
+				// a side fact without a trigger would be left to model-based instantiation, which does not terminate
+				// in practice for array-sorted variables (event IDs): trigger on the terms that mention the variables
+				f = fmt.Sprintf("(forall (%s) (! %s :pattern (%s)))", strings.Join(bs, " "), f, ap)
 			} else {
 				f = fmt.Sprintf("(forall (%s) %s)", strings.Join(bs, " "), f)
 			}
@@ -941,6 +945,90 @@ func (e *Env) addSide(f string, pattern string) {
 		}
 	}
 	e.side = append(e.side, f)
+}
+
+// autoPattern picks, for every bound variable, the innermost application of an uninterpreted symbol (select, an
+// accessor, a declared function) that has the variable among its arguments; the terms together form one multi-pattern.
+// Returns "" if some variable has no such term (then no trigger is given).
+func autoPattern(f string, binders []string) string {
+	interpreted := map[string]bool{"+": true, "-": true, "*": true, "<": true, "<=": true, ">": true, ">=": true, "=": true, "and": true, "or": true,
+		"not": true, "=>": true, "ite": true, "mod": true, "div": true, "distinct": true, "forall": true, "exists": true, "let": true, "!": true, "store": true}
+	var pats []string
+	for _, b := range binders {
+		name := strings.Fields(strings.Trim(b, "()"))[0]
+		best := ""
+		// scan every occurrence of the variable as a whole token
+		for i := 0; i+len(name) <= len(f); i++ {
+			if f[i:i+len(name)] != name {
+				continue
+			}
+			if i > 0 && f[i-1] != ' ' && f[i-1] != '(' {
+				continue
+			}
+			if j := i + len(name); j < len(f) && f[j] != ' ' && f[j] != ')' {
+				continue
+			}
+			// walk outwards through the enclosing applications
+			pos := i
+			for {
+				open := -1
+				depth := 0
+				for k := pos - 1; k >= 0; k-- {
+					if f[k] == ')' {
+						depth++
+					} else if f[k] == '(' {
+						if depth == 0 {
+							open = k
+							break
+						}
+						depth--
+					}
+				}
+				if open < 0 {
+					break
+				}
+				end := matchParen(f, open)
+				if end < 0 {
+					break
+				}
+				term := f[open : end+1]
+				head := strings.Fields(strings.TrimLeft(term, "("))[0]
+				if strings.HasPrefix(term, "((") {
+					head = "(" // binder list or similar
+				}
+				if !interpreted[head] && head != "(" {
+					if best == "" || len(term) < len(best) {
+						best = term
+					}
+					break
+				}
+				pos = open
+			}
+		}
+		if best == "" {
+			return ""
+		}
+		dup := false
+		for _, p := range pats {
+			if p == best {
+				dup = true
+			}
+		}
+		if !dup {
+			pats = append(pats, best)
+		}
+	}
+	// every binder must occur in the chosen terms, and no chosen term may contain a nested quantifier
+	all := strings.Join(pats, " ")
+	for _, b := range binders {
+		if !strings.Contains(all, strings.Fields(strings.Trim(b, "()"))[0]) {
+			return ""
+		}
+	}
+	if strings.Contains(all, "(forall ") || strings.Contains(all, "(exists ") || strings.Contains(all, "(ite ") {
+		return ""
+	}
+	return all
 }
 
 func (e *Env) evalIndex(n *EIndex) SVal {
